@@ -116,6 +116,18 @@ def check(run):
             return None
         run.check(not any(q.exit_reachable_under(ip, p, starts, size_is_one) for p in pushes), 'R10', 'queue-sender-start-all-paths', ip.norm, ip.loc(),
                   'with exactly one packet queued (the hop was idle) a path from the enqueue reaches the end of incoming_packet without starting the sender', 'with size()==1 every path after the push starts the sender')
+    # the serialisation time is rounded UP to the clock's resolution: truncation lets every packet leave a fraction of a tick
+    # early, and over a backlog the fractions add up to more than the configured bandwidth
+    convs = [n_ for n_ in bs.all_nodes() if n_['k'] in ('cast', 'construct') and 't' in n_ and ('int64' in bs.ty(n_['t']) or bs.ty(n_['t']) in ('long', 'long long')) and is_node(n_.get('e') if n_['k'] == 'cast' else (n_.get('args') or [None])[0]) and
+             any(x['k'] == 'ref' and x.get('name') == 'nanoseconds_per_byte' or (x['k'] == 'member' and x.get('name') == 'm_bandwidth') for x in walk(n_.get('e') if n_['k'] == 'cast' else n_['args'][0]))]
+    if convs:
+        inner = [q.strip_casts(n_.get('e') if n_['k'] == 'cast' else n_['args'][0]) for n_ in convs]
+        up = all(is_node(e_) and e_['k'] == 'call' and (q.callee_name(e_) or '').split('::')[-1] in ('ceil', 'ceill', 'ceilf') for e_ in inner)
+        run.check(up, 'R5', 'serialisation-time-rounds-up', bs.norm, bs.loc(convs[0]),
+                  'the serialisation time (size / bandwidth, a floating-point number of nanoseconds) is truncated to whole ticks: every packet leaves up to a tick early and the next one starts from that early instant, so a backlogged hop forwards more bytes per interval than bandwidth x interval + one packet (700 MB/s carrying 20-byte ACKs runs at 714 MB/s)',
+                  'converted through std::ceil')
+    else:
+        run.unrecognised('R5', 'serialisation-time-rounds-up', bs.norm, bs.loc(), 'no conversion of the floating-point serialisation time to integer ticks found in begin_send_next_packet (timing idiom changed)')
     cont = [c for c in ns.calls() if c.get('usr') == bs.usr]
     er = [c for op, c in q.container_calls(ns, 'm_queue', {'pop_front'})]
     # evaluated in the two abstract states after the departure: packets remain -> every path restarts the sender;
